@@ -97,6 +97,20 @@ def gen_wf_mrs(rng, max_nouns=2, shuffle_vars=False, shuffle_rels=False):
     rels.append({"pred": rng.choice(VERBS), "label": vlbl, "args": vargs})
     vars_[e] = [["TENSE", rng.choice(["past", "pres"])]] + rng.sample(EPROPS[3:], rng.randrange(0, 2))
     cur_lbl, cur_e = vlbl, e
+    # free modifiers in the verb's scope (ARG1 unexpressed) that share an argument which the verb
+    # does not take: several representatives of one scope, some already connected to each other
+    if rng.random() < 0.1:
+        y = vg.new("x")
+        ly = vg.new("h")
+        rels.append({"pred": rng.choice(NOUNS[:3]), "label": ly, "args": [["ARG0", y]]})
+        vars_[y] = [["NUM", "sg"]] if rng.random() < 0.5 else []
+        ql, hole, body = vg.new("h"), vg.new("h"), vg.new("h")
+        rels.append({"pred": rng.choice(QUANTS), "label": ql, "args": [["ARG0", y], ["RSTR", hole], ["BODY", body]]})
+        hcons.append([hole, "qeq", ly])
+        for _ in range(rng.choice([2, 2, 3])):
+            ej = vg.new("e")
+            rels.append({"pred": rng.choice(["_loud_a_1", "_happy_a_1", "_late_p"]), "label": vlbl,
+                         "args": [["ARG0", ej], ["ARG2", y]]})
     # adverb on the verb
     if rng.random() < 0.3 or ctrl:
         e2 = vg.new("e")
